@@ -153,6 +153,9 @@ def parse_term(t):
     m = re.match(r"drop\((.+?)\) -> \[return: bb(\d+), .*\];$", t)
     if m:
         return {"kind": "drop", "place": m.group(1), "to": int(m.group(2))}
+    m = re.match(r"assert\((!?)(?:move |copy )?(_\d+), \"((?:[^\"\\]|\\.)*)\".*\) -> \[success: bb(\d+), .*\];$", t)
+    if m:
+        return {"kind": "goto", "to": int(m.group(4)), "assert": m.group(2), "negated": bool(m.group(1)), "msg": m.group(3)}
     m = re.match(r"assert\(.*\) -> \[success: bb(\d+), .*\];$", t)
     if m:
         return {"kind": "goto", "to": int(m.group(1))}
